@@ -1,5 +1,150 @@
-import GraphrsModel.Obs
+/-
+  C03 — algorithms traverse exactly the stored edges, with their current weights.
+
+  The traversal lists `successors_vec` / `predecessors_vec` are what the shortest-path,
+  centrality and partitioning algorithms iterate over.  This file re-establishes the clause
+  `vecOk` of the coupling invariant after every mutation and reads it out in the words of the
+  property: v is a traversal neighbour of u iff an edge u -> v (u - v when undirected) is stored,
+  and the weight used for the pair is the minimum weight among the stored edges between them -
+  under every duplicate-edge policy (keep-first leaves the entry, keep-last overwrites it,
+  multi-edge keeps the minimum).
+-/
+import GraphrsModel.Lemmas.C03Final
 namespace Graphrs
-/-- placeholder while the framework is brought up: replaced by the property theorems -/
-theorem C03_run_nil (sp : Specs) : (Abs.run sp []).2 = [] := rfl
+open C03
+
+/-! The proofs go through a Prop-level invariant `C03.Pre` (see `Lemmas/C03Pre.lean`): it follows from
+    `Store.wf` (`C03.pre_of_wf`), is preserved by `add_node` (`C03.pre_addNode`), its traversal part
+    `C03.PreV` is re-established by `add_edge` (`C03.preV_addEdge`) and gives back the Bool clause
+    `vecOk` (`C03.vecOk_of_preV`).  The post-state hypotheses `h1 h2 h3` are not needed. -/
+
+private theorem sameKey_eq_key (dir : Bool) (a b x y : Nat) (h : dir = true ∨ a ≤ b) :
+    ((a == x && b == y) || (!dir && a == y && b == x)) = decide ((a, b) = nameKey dir x y) := by
+  rw [Bool.eq_iff_iff]
+  cases dir
+  · have hab : a ≤ b := by
+      rcases h with h | h
+      · cases h
+      · exact h
+    unfold nameKey
+    by_cases hxy : x > y
+    · simp [hxy]; omega
+    · simp [hxy]; omega
+  · simp [nameKey]
+
+private theorem exists_entry_iff (row : List Adj) (j : Nat) :
+    (∃ w, (j, w) ∈ row) ↔ (Abs.minW (wts row j)).isSome = true := by
+  rw [minW_isSome]
+  have := wts_ne_nil_iff row j
+  simp only [Bool.not_eq_true', List.isEmpty_eq_false_iff]
+  rw [this]
+  constructor
+  · rintro ⟨w, hw⟩; exact ⟨(j, w), hw, rfl⟩
+  · rintro ⟨a, ha, rfl⟩; exact ⟨a.2, ha⟩
+
+set_option linter.unusedVariables false in
+theorem C03_addNode_vecOk (s : Store) (n : Node) (h : s.wf = true)
+    (h1 : (s.addNode n).nodesOk = true) (h2 : (s.addNode n).edgesOk = true) (h3 : (s.addNode n).adjOk = true) :
+    (s.addNode n).vecOk = true :=
+  vecOk_of_pre _ (pre_addNode s n (pre_of_wf s h))
+
+set_option linter.unusedVariables false in
+theorem C03_addEdge_vecOk (s : Store) (e : Edge) (h : s.wf = true)
+    (h1 : (s.addEdge e).1.nodesOk = true) (h2 : (s.addEdge e).1.edgesOk = true) (h3 : (s.addEdge e).1.adjOk = true) :
+    (s.addEdge e).1.vecOk = true :=
+  vecOk_of_preV _ (preV_addEdge s e (pre_of_wf s h))
+
+/-- the weights of the stored edges between two nodes, as read from `get_all_edges()` alone -/
+theorem C03_weightsBetween_abs (s : Store) (h : s.wf = true) (x y : Nat) :
+    s.weightsBetween x y = (s.abs.between s.specs.directed x y).map (·.w) := by
+  simp only [Store.wf, Bool.and_eq_true] at h
+  have eP := edgesOk_read s h.1.1.2
+  unfold Store.weightsBetween Abs.between Store.abs
+  simp only
+  congr 1
+  have hf : s.allEdges.filter (fun e => Abs.sameKey s.specs.directed e x y) =
+      s.allEdges.filter (fun e => decide ((e.u, e.v) = nameKey s.specs.directed x y)) := by
+    apply List.filter_congr
+    intro e he
+    obtain ⟨kv, hkv, hekv⟩ := (mem_allEdges s e).1 he
+    have hkey := eP.key kv hkv e hekv
+    have hcan := eP.canon kv hkv
+    rw [← hkey] at hcan
+    exact sameKey_eq_key _ _ _ _ _ hcan
+  rw [hf]
+  unfold Store.allEdges
+  exact (filter_flatMap_key (fun e : Edge => (e.u, e.v)) s.edges eP.nd eP.key _).symm
+
+/-- **successor lists**: `j` is listed under `i` iff an edge from the i-th to the j-th node is stored
+    (either orientation when undirected), and the minimum listed weight is the minimum stored weight -/
+theorem C03_successors_match_store (s : Store) (h : s.wf = true) (i j x y : Nat)
+    (hx : s.names[i]? = some x) (hy : s.names[j]? = some y) :
+    ((∃ w, (j, w) ∈ (s.succVec[i]?).getD []) ↔ s.hasEdge x y = true) ∧
+    ((∃ w, (j, w) ∈ (s.succVec[i]?).getD []) →
+      Abs.minW ((((s.succVec[i]?).getD []).filter (·.1 == j)).map (·.2)) =
+        Abs.minW ((s.abs.between s.specs.directed x y).map (·.w))) := by
+  have hp := pre_of_wf s h
+  have hwb := C03_weightsBetween_abs s h x y
+  simp only [Store.wf, Bool.and_eq_true] at h
+  have eP := edgesOk_read s h.1.1.2
+  have hv := hp.vS.val i j x y hx hy
+  have hs : (fS s.edges s.specs.directed x y).isSome = s.hasEdge x y := by
+    rw [hasEdge_iff s eP, fS_isSome _ _ _ _ eP.ne]
+  refine ⟨?_, fun _ => ?_⟩
+  · rw [exists_entry_iff, ← hs, ← hv]; rfl
+  · show rowMin s.succVec i j = _
+    rw [hv, ← hwb]; rfl
+
+/-- **predecessor lists** (directed graphs; empty on undirected ones) -/
+theorem C03_predecessors_match_store (s : Store) (h : s.wf = true) (i j x y : Nat)
+    (hx : s.names[i]? = some x) (hy : s.names[j]? = some y) :
+    ((∃ w, (j, w) ∈ (s.predVec[i]?).getD []) ↔ (s.specs.directed = true ∧ s.hasEdge y x = true)) ∧
+    ((∃ w, (j, w) ∈ (s.predVec[i]?).getD []) →
+      Abs.minW ((((s.predVec[i]?).getD []).filter (·.1 == j)).map (·.2)) =
+        Abs.minW ((s.abs.between s.specs.directed y x).map (·.w))) := by
+  have hp := pre_of_wf s h
+  have hwb := C03_weightsBetween_abs s h y x
+  simp only [Store.wf, Bool.and_eq_true] at h
+  have eP := edgesOk_read s h.1.1.2
+  have hv := hp.vP.val i j x y hx hy
+  have hs : (fP s.edges s.specs.directed x y).isSome = (s.specs.directed && s.hasEdge y x) := by
+    rw [fP_isSome, hasEdge_iff s eP, fS_isSome _ _ _ _ eP.ne]
+  have hiff : (∃ w, (j, w) ∈ (s.predVec[i]?).getD []) ↔
+      (s.specs.directed = true ∧ s.hasEdge y x = true) := by
+    rw [exists_entry_iff, ← Bool.and_eq_true, ← hs, ← hv]; rfl
+  refine ⟨hiff, fun hex => ?_⟩
+  have hd := (hiff.1 hex).1
+  show rowMin s.predVec i j = _
+  rw [hv, ← hwb]
+  unfold fP
+  rw [if_pos hd]; rfl
+
+/-- every listed index is a node position -/
+theorem C03_indexes_in_range (s : Store) (h : s.wf = true) (i : Nat) (a : Adj)
+    (ha : a ∈ (s.succVec[i]?).getD [] ∨ a ∈ (s.predVec[i]?).getD []) : a.1 < s.nodesVec.length := by
+  have hp := pre_of_wf s h
+  rw [← names_length]
+  rcases ha with ha | ha
+  · cases hr : s.succVec[i]? with
+    | none => rw [hr] at ha; simp at ha
+    | some row => rw [hr] at ha; exact hp.vS.bnd i row hr a ha
+  · cases hr : s.predVec[i]? with
+    | none => rw [hr] at ha; simp at ha
+    | some row => rw [hr] at ha; exact hp.vP.bnd i row hr a ha
+
+/-- the defect repaired by the traversal-weight fix, replayed in the model: under keep-last a heavier
+    duplicate replaces the stored edge and the traversal weight follows (it used to stay at 1) -/
+example :
+    let sp : Specs := ⟨true, false, false, .keepLast, .create, .error⟩
+    let s := (Store.run sp [Op.addEdge ⟨1, 2, some 1, none⟩, Op.addEdge ⟨1, 2, some 5, none⟩]).1
+    s.allEdges.map (·.w) = [some 5] ∧ s.succVec = [[(1, some 5)], []] := by
+  decide
+
+/-- and under keep-first a lighter duplicate is ignored by both the store and the traversal list -/
+example :
+    let sp : Specs := ⟨true, false, false, .keepFirst, .create, .error⟩
+    let s := (Store.run sp [Op.addEdge ⟨1, 2, some 5, none⟩, Op.addEdge ⟨1, 2, some 1, none⟩]).1
+    s.allEdges.map (·.w) = [some 5] ∧ s.succVec = [[(1, some 5)], []] := by
+  decide
+
 end Graphrs
